@@ -25,9 +25,47 @@ CHECKS = {
         "programs are an exhaustive two-draw core plus seeded random programs, not all programs.",
         "3/C01",
     ),
+    "C12": (
+        "model_checking",
+        "TLA+ Dynamics.tla (the reference's ten-step procedure, one action per numbered step, plus a coroutine machine for "
+        "behaviour/monitor statements) checked by TLC per case (PhaseOrder, ClockOnlyInTick, NothingAfterEnding, "
+        "EachAgentOncePerStep, OneEntryPerStep); bound to the code by replay: generated Scenic program + logging Simulator "
+        "subclass, observed event sequence must equal the behaviour TLC emits",
+        "For every case (program of the core dynamic fragment x truth table x agent schedule x time step) TLC runs the "
+        "specification, checks the phase-order action properties and emits the expected event log; the real "
+        "Simulator.simulate is driven with the same table and schedules and its create/record/monitor/schedule/behaviour/"
+        "exec/simstep/read events, ending type and step, action-log and trajectory lengths must coincide.",
+        "Core fragment only (single top-level scenario without compose block; nested scenarios are not yet modelled); "
+        "conditions are table look-ups; the case->Scenic printer is trusted; exhaustive duration core + seeded random programs.",
+        "3/C12",
+    ),
+    "C13": (
+        "model_checking",
+        "TLA+ Dynamics.tla try/interrupt + guard semantics (Walk/EnterBlock/Unwind/StartBeh) run by TLC per case; replay into the "
+        "real simulator with and without raiseGuardViolations, event sequences and endings compared; named as-implemented "
+        "deviation (UnwindReturnImpl) with trigger predicate for the known finding",
+        "Each case (program of the interrupt fragment x step-indexed truth table of interrupt conditions and guards) has exactly "
+        "one behaviour in the spec; the real code must produce the same action/log sequence, the same ending, and raise the "
+        "right GuardViolation class when asked to. Exhaustive small core (all tables over 4 steps), targeted nested-flow core, "
+        "seeded random nested programs.",
+        "Productive programs only; invariants of a behaviour that is running a sub-behaviour under do-for/do-until/try are kept "
+        "true by the generator (the code re-checks them there, the reference says it does not) so that situation is not decided.",
+        "3/C13",
+    ),
+    "C19": (
+        "model_checking",
+        "TLA+ Dynamics.tla choose/shuffle/run-time-draw actions (Pick with exact rational weights) enumerated by TLC; bound to the "
+        "code by exhaustive scripted-RNG replay of Simulator.simulate (every RNG branch), exact law over runs compared",
+        "For each case TLC enumerates every random outcome with its exact weight; the scripted-RNG driver executes the real "
+        "simulation once per RNG branch with weights computed from the logged random.choices/randint arguments; the two laws over "
+        "(event log, ending) must be equal as rationals (hence enabled-set conditioning, weights, exactly-once for shuffle, "
+        "deadlock rejection, independence of run-time draws).",
+        "Behaviours only (choose/shuffle inside compose blocks not covered); item sets of size <= 3; scripted random module.",
+        "3/C19",
+    ),
 }
 
-NOT_YET = "check not built yet (build in progress): no TLA+ specification/conformance harness committed for it so far"
+NOT_YET ="check not built yet (build in progress): no TLA+ specification/conformance harness committed for it so far"
 
 manifest = {
     "version": 1,
